@@ -14,7 +14,7 @@ pub fn header(lib_version: u16, data_version: u32, compressed: bool) -> Vec<u8> 
 
 pub fn run(ctx: &mut Ctx, reg: &Registry) {
     let subs = subjects(reg);
-    let nvals = ctx.t(12, 100);
+    let nvals = ctx.t(40, 100);
     for s in subs.iter() {
         if !ctx.mine(s.index) || !ctx.wants_type(&s.label) {
             continue;
